@@ -1,5 +1,6 @@
 From Coq Require Import Extraction ExtrOcamlBasic.
-From BV Require Import lib.ExtractBase lib.Ints gen.Params_gen model.Package model.PackageAccept.
+From BV Require Import lib.ExtractBase lib.Ints gen.Params_gen model.Package model.PackageAccept model.Truc model.PackageTruc.
 Extraction "model.ml" extract_base is_well_formed is_topo_sorted is_consistent is_child_with_parents
   is_child_with_parents_tree first_violation has_dup unsorted has_empty_vin has_conflict spec_cwp_b spec_cwp_tree_b
-  weights_ok_b toy_single toy_accept has_wtxid has_txid rm_find result_matches holds_results holds_no_dangling spends.
+  weights_ok_b toy_single toy_accept toy3_single toy3_accept has_wtxid has_txid rm_find result_matches holds_results
+  holds_no_dangling spends truc_holds.
